@@ -31,3 +31,9 @@ claim("C05",
       "Decides that every exit of the try statement — including the recovered-panic path — has passed the finally region exactly once, that catch clauses are tried in declaration order with the first match leaving the loop and the thrown object bound to the catch variable, and that a failed parse/run or an uncaught control cannot reach a zero exit status. The class-matching relation itself is C08's clause; diagnostic text and output flushing order are not decided.",
       "a defer+recover that assigns named results is modelled as an exit bypassing the body; summaries recomputed each run; main's os.Exit(1) on error is the failing exit",
       "DESIGN.md §2 C05")
+
+claim("C01",
+      "difference-bound (zone) abstract interpretation of every index/slice over the source text and token slices, with call-site preconditions, return summaries, object invariants and monotone cursor fields; end-of-input loop evaluation, progress summaries, panic reachability, operand-presence and recursion-guard rules",
+      "Decides structural clauses of 'lexing and parsing never crash and always terminate': every index and slice over the source text, its rune/byte copies and the token slices in lexer and parser is proven in bounds on every path (sites safe only by a non-local reason are listed as not armed); the other rules (see evidence) cover loop exit at end of input, progress, reachable panics, missing operands and unguarded recursion. The time bound and the content of diagnostics are not decided.",
+      "A-IDX-NONNEG (cursors from calls/fields are non-negative unless computed by subtraction); strings immutable; library models for strings.Index*/utf8.DecodeRune*; assumed table listed in evidence",
+      "DESIGN.md §2 C01")
